@@ -42,13 +42,32 @@ class Config:
     def __init__(self, facts=None, inline=None, post_init=None, max_depth=6, canon_arg=None,
                  ret_summary=None, assume_positive=True, str_domains=None):
         self.facts = dict(facts or {})
-        self.inline = inline or (lambda f: False)
+        user_inline = inline or (lambda f: False)
+        known = _known_functions()
+        # a function that did not exist when the checks were last validated (typically an extracted helper) is always inlined,
+        # so that the refactoring stays invisible to every rule
+        self.inline = (lambda f: user_inline(f) or (f.module.name + ":" + f.qualname) not in known) if known else user_inline
         self.post_init = post_init or (lambda c: False)
         self.max_depth = max_depth
         self.canon_arg = canon_arg
         self.ret_summary = ret_summary  # callable(FuncInfo, result Val) -> Val
         self.str_domains = str_domains or {}
         self.lenient = False  # True: an expression that cannot be normalised becomes an opaque fresh value (control-flow analyses)
+
+
+_KNOWN_FUNCS = None
+
+
+def _known_functions():
+    global _KNOWN_FUNCS
+    if _KNOWN_FUNCS is None:
+        import json, os
+        try:
+            with open(os.path.join(os.path.dirname(os.path.abspath(__file__)), "floors.json")) as f:
+                _KNOWN_FUNCS = set(json.load(f).get("known_functions", []))
+        except (FileNotFoundError, ValueError):
+            _KNOWN_FUNCS = set()
+    return _KNOWN_FUNCS
 
 
 class Event:
@@ -194,6 +213,28 @@ class Ctx:
         self.events.append(Event(kind, data, where))
 
 
+def signs_on_path(trace, d: Rat):
+    """Allowed signs of the form d (a set within {-1, 0, 1}) given the numeric decisions (cond, taken) of a path."""
+    allowed = {-1, 0, 1}
+    S = Ctx._SIGNS
+    for item in trace:
+        c, dec = item[0], item[1]
+        neg = False
+        while isinstance(c, tuple) and c and c[0] == "not":
+            c, neg = c[1], not neg
+        if not (isinstance(c, tuple) and len(c) == 3 and c[0] in S and isinstance(c[1], Rat) and isinstance(c[2], Rat)):
+            continue
+        s = set(S[c[0]])
+        if dec == neg:
+            s = {-1, 0, 1} - s
+        dd = c[1] - c[2]
+        if dd == d:
+            allowed &= s
+        elif dd == -d:
+            allowed &= {-x for x in s}
+    return allowed
+
+
 def explore(repo: Repo, cfg: Config, runner: Callable[[Ctx], Val], max_paths=512) -> List[Outcome]:
     """Enumerate the syntactic paths of one evaluation."""
     pending = [[]]
@@ -316,7 +357,9 @@ def opaque_of(ty: Ty, path: str, ctx: Ctx, flags=()) -> Val:
         if len(ty.args) == 2:
             PAIR_PATHS.add(path)
         return TupV([opaque_of(t, "%s[%d]" % (path, i), ctx) for i, t in enumerate(ty.args)])
-    if k in ("path", "frame", "dict"):
+    if k == "frame":
+        return FrameV("read", path)
+    if k in ("path", "dict"):
         return Opaque(path)
     raise Unmodelled("no opaque value for type %r" % ty)
 
@@ -344,4 +387,8 @@ def opaque_result(ty: Ty, atom, ctx: Ctx) -> Val:
         return NONE
     if k == "bool":
         return BoolV(None, ("truth", poly.atom_str(atom)))
+    if k in ("path", "dict"):
+        return Opaque(poly.atom_str(atom))
+    if k == "frame":
+        return FrameV("read", poly.atom_str(atom))
     raise Unmodelled("no result view for type %r" % ty)
